@@ -946,13 +946,11 @@ def _c14_execute(hb, sb, inputs):
             if stale:
                 with open(rpath, "w") as f:
                     f.write(sentinel)
-            args = []
-            if inp["flag"]:
-                args += ["--path", inp["flag"]]
             if inp["toml"]:
                 with open(os.path.join(cwd, "cfg.toml"), "w") as f:
                     f.write(bindrive.toml_text(inp["toml"][0], inp["toml"][0]["path"]))
-                args += ["--toml", "cfg.toml"]
+            # every equivalent spelling of the two options (--path X, -p X, --path=X, -pX, either order)
+            args = bindrive.spell_args(inp["flag"], "cfg.toml" if inp["toml"] else "", inp)
             code, err = bindrive.run_solstat(sb, cwd, args)
             written = os.path.exists(rpath) and open(rpath, errors="replace").read() != sentinel
             if written:
@@ -1356,7 +1354,9 @@ _PAT_RULE = ("TLC generates files from the instance families of PatGen/DeclGen.t
              "declarations, in contract kinds / member positions / neighbourhoods of other items and attribute products; each file "
              "is rendered one token per line, parsed, projected (round trip checked) and analysed by the real detectors; TV_Patterns "
              "evaluates MustLines / MayLines of Patterns.tla on the projected tree and accepts iff Must <= reported <= May; corpus "
-             "programs are validated the same way. Non-trivial = records in which some detector of the property has a canonical "
+             "programs and a fixed slice of random programs (bin/randsol.py: random identifiers, literals, widths, counts, "
+             "positions, layouts) are validated the same way, a third of all programs through analyze_dir on a directory "
+             "holding the file instead of analyze_for_*. Non-trivial = records in which some detector of the property has a canonical "
              "occurrence. ")
 
 
